@@ -1474,6 +1474,8 @@ where
             && !self.inner.has_streams_or_other_references()
         {
             tracing::trace!("last stream closed during poll, wake again");
+            #[cfg(feature = "verif-hooks")]
+            crate::verif::ev("conn.self_wake", || vec![]);
             cx.waker().wake_by_ref();
         }
         result
